@@ -226,4 +226,9 @@ example : (PySlice.mk (some 7) none (some (-2))).positions 5 = .ok [4, 2, 0] := 
 example : (Key.list [-1, 0, -1]).positions 3 = .ok [2, 0, 2] := by decide
 example : (Key.mask [true, false, true]).positions 3 = .ok [0, 2] := by decide
 
+/- The FRAME-level theorems of C04 (`frame_iloc_exact`, `frame_iloc_element`, `frame_iloc_line`,
+   `frame_iloc_error`, `frame_loc_positional`, `frame_loc_exact`, `frame_loc_element`) are in
+   Props/C04Frame.lean (same namespace): they depend on `SF.C03.extract_refines`, whose lemma file
+   imports this one. -/
+
 end SF.C04
